@@ -304,12 +304,39 @@ def observe(case: dict) -> dict:
     # ---- NumPy with caller-supplied arrays
     if want.get("np", True):
         o = {"has": True, "ok": False, "err": "", "y": {"rho": {}, "v": {}, "w": {}}, "shapes": True}
+        o["pure"] = {"has": False}
         try:
-            b.net.step(init_conditions=b.np_init(x, u, d), engine=np_engine(), **okw, **kw)
+            ic = b.np_init(x, u, d)
+            pristine = {el_: {k_: v_.copy() for k_, v_ in dd.items()} for el_, dd in ic.items()}
+            keys = {el_: list(dd) for el_, dd in ic.items()}
+            ids = {el_: {k_: id(v_) for k_, v_ in dd.items()} for el_, dd in ic.items()}
+            b.net.step(init_conditions=ic, engine=np_engine(), **okw, **kw)
             o["y"], o["shapes"] = b.read_next()
             o["ok"] = True
+            if want.get("pure", False):
+                def changed():
+                    ch = []
+                    for el_, dd in pristine.items():
+                        if el_ not in ic or list(ic[el_]) != keys[el_]:
+                            ch.append(f"dict of {b.idof.get(el_)}")
+                            continue
+                        for k_, v_ in dd.items():
+                            a_ = ic[el_][k_]
+                            if id(a_) != ids[el_][k_] or a_.shape != v_.shape or not np.array_equal(a_, v_, equal_nan=True):
+                                ch.append(f"{k_} of {b.idof.get(el_)}")
+                    return ch
+                ch1 = changed()
+                # the same dictionary again on the same objects, then the pristine values on the same objects
+                b.net.step(init_conditions=ic, engine=np_engine(), **okw, **kw)
+                y2, _ = b.read_next()
+                ch2 = changed()
+                b.net.step(init_conditions={el_: {k_: v_.copy() for k_, v_ in dd.items()} for el_, dd in pristine.items()},
+                           engine=np_engine(), **okw, **kw)
+                y3, _ = b.read_next()
+                o["pure"] = {"has": True, "changed": sorted(set(ch1 + ch2)), "y2": y2, "y3": y3}
         except BaseException as e:  # noqa: BLE001
             o["err"] = errstr(e)
+            o["ok"] = False
         obs["np"] = o
     # ---- the same step without options on inputs clamped at zero by hand (metamorphic partner of C11)
     if want.get("np_plain", False):
